@@ -22,7 +22,7 @@ RULE = (
 )
 BUDGET = {
     "quick": {"examples": 500, "shards": 4},
-    "thorough": {"examples": 8000, "shards": 16},
+    "thorough": {"fuzz_runs": 3000, "examples": 8000, "shards": 16},
 }
 EXPECTED_LABELS = (
     "merge", "bifurcation", "1in-multi-out", "multi-in-multi-out", "interior-ramp", "ramp-only-source",
@@ -45,7 +45,14 @@ def cases(draw):
     n = draw(st.integers(1, 3))
     states = [draw(gen_nets.states(sp)) for _ in range(n)]
     comp = draw(st.sampled_from([None, None, None, "SX", "MX"]))
-    return {"spec": sp, "states": states, "compile": comp, "rollout": draw(st.booleans())}
+    rollout = draw(st.booleans())
+    if rollout and draw(st.booleans()):
+        # moderate, element-distinct first state so that the step's result is admissible and can be fed back
+        states[0] = draw(gen_nets.distinct_states(sp))
+        cfl = 0.4 * min(l["L"] for l in sp["links"]) / (1.1 * max(l["v_free"] for l in sp["links"]))
+        sp["pars"]["T"] = min(sp["pars"]["T"], cfl)  # a sampling time for which the model stays in its domain
+        gen_nets.fix_singular(draw, sp, states[0])
+    return {"spec": sp, "states": states, "compile": comp, "rollout": rollout}
 
 
 def strategy(tier):
